@@ -9,6 +9,7 @@ import (
 	"go/ast"
 	"go/constant"
 	"go/token"
+	"go/types"
 )
 
 type normCmp struct {
@@ -160,4 +161,67 @@ func (n normCmp) holdsAt(v int64) bool {
 		return v != n.C
 	}
 	return false
+}
+
+// localMinusOneOrNonNeg: every assignment to the local v stores the constant −1 or a value that cannot be
+// negative by construction (max(…, c) with a constant c ≥ 0, len(…), a constant ≥ 0).
+func (p *Prog) localMinusOneOrNonNeg(fn *Fn, v types.Object) bool {
+	lv, ok := v.(*types.Var)
+	if !ok || lv.IsField() {
+		return false
+	}
+	nonNeg := func(e ast.Expr) bool {
+		e = ast.Unparen(e)
+		if c, isC := p.constInt(fn, e); isC {
+			return c >= 0 || c == -1
+		}
+		call, ok := e.(*ast.CallExpr)
+		if !ok {
+			return false
+		}
+		if p.Builtin(fn, call) == "len" {
+			return true
+		}
+		isMax := p.Builtin(fn, call) == "max"
+		if cf := p.Callee(fn, call); cf != nil && p.firstParty(cf.Pkg()) && (cf.Name() == "maxInt" || cf.Name() == "max") {
+			isMax = true
+		}
+		if isMax {
+			for _, a := range call.Args {
+				if c, isC := p.constInt(fn, a); isC && c >= 0 {
+					return true
+				}
+				if inner, ok := ast.Unparen(a).(*ast.CallExpr); ok && p.Builtin(fn, inner) == "len" {
+					return true
+				}
+			}
+		}
+		return false
+	}
+	n, all := 0, true
+	ast.Inspect(fn.Root().Body, func(m ast.Node) bool {
+		switch x := m.(type) {
+		case *ast.AssignStmt:
+			for i, l := range x.Lhs {
+				if id, ok := ast.Unparen(l).(*ast.Ident); ok && p.ObjOf(fn, id) == v {
+					n++
+					if len(x.Lhs) != len(x.Rhs) || (x.Tok != token.ASSIGN && x.Tok != token.DEFINE) || !nonNeg(x.Rhs[i]) {
+						all = false
+					}
+				}
+			}
+		case *ast.IncDecStmt:
+			if id, ok := ast.Unparen(x.X).(*ast.Ident); ok && p.ObjOf(fn, id) == v {
+				all = false
+			}
+		case *ast.UnaryExpr:
+			if x.Op == token.AND {
+				if id, ok := ast.Unparen(x.X).(*ast.Ident); ok && p.ObjOf(fn, id) == v {
+					all = false
+				}
+			}
+		}
+		return true
+	})
+	return n > 0 && all
 }
